@@ -392,10 +392,16 @@ where
     ErrorKind: From<T>,
 {
     fn from(convertible_to_kind: T) -> Self {
-        Self {
-            kind: convertible_to_kind.into(),
-            fatal: false,
-        }
+        let kind: ErrorKind = convertible_to_kind.into();
+
+        // N.B. Expanding an unset variable under `nounset` is fatal to a non-interactive
+        // shell no matter whether it happens in a word or in an arithmetic expression.
+        let fatal = matches!(
+            kind,
+            ErrorKind::EvalError(crate::arithmetic::EvalError::ExpandingUnsetVariable(_))
+        );
+
+        Self { kind, fatal }
     }
 }
 
